@@ -325,6 +325,28 @@ func checkC13(c *Ctx) {
 				}
 			}
 			spin := hasCycleWithin(loop, func(b *ssa.BasicBlock) bool { return inLoopSet[b] && !blocked[b] })
+			// a counted loop with a small constant bound is not a spin: its header test leaves the
+			// loop after at most K iterations whatever the store answers
+			if spin && hasExit {
+				for _, b := range loop {
+					ifi, ok := b.Instrs[len(b.Instrs)-1].(*ssa.If)
+					if !ok || len(b.Succs) != 2 {
+						continue
+					}
+					for e := 0; e < 2; e++ {
+						if !inLoopSet[b.Succs[e]] || inLoopSet[b.Succs[1-e]] {
+							continue // edge e must stay in the loop, the other leave it
+						}
+						if trips, ok := m.loopCounterBound(m.litOf(ifi.Cond, e == 0, ifi)); ok && trips <= 8 {
+							// every unblocked cycle passes this test
+							test := b
+							if !hasCycleWithin(loop, func(x *ssa.BasicBlock) bool { return inLoopSet[x] && !blocked[x] && x != test }) {
+								spin = false
+							}
+						}
+					}
+				}
+			}
 			head := loop[0]
 			key := fmt.Sprintf("loop at block %s of %s", head.Comment, shortFn(f))
 			var at ssa.Instruction
@@ -663,4 +685,18 @@ func tarjan[T comparable](nodes []T, succ func(T) []T) [][]T {
 		}
 	}
 	return out
+}
+
+
+// loopLatch: a block of the loop with a back edge to the loop's first block (its header).
+func loopLatch(loop []*ssa.BasicBlock, in map[*ssa.BasicBlock]bool) *ssa.BasicBlock {
+	head := loop[0]
+	for _, b := range loop {
+		for _, s := range b.Succs {
+			if s == head {
+				return b
+			}
+		}
+	}
+	return head
 }
